@@ -31,7 +31,7 @@ func Paths(fn *ssa.Function, max int) ([]Path, bool) {
 		if len(b.Succs) == 0 {
 			p := Path{Blocks: append([]*ssa.BasicBlock(nil), cur...)}
 			if len(b.Instrs) > 0 {
-				if r, ok := b.Instrs[len(b.Instrs)-1].(*ssa.Return); ok {
+				if r, ok := AsReturn(b.Instrs[len(b.Instrs)-1]); ok {
 					p.Ret = r
 				}
 			}
